@@ -68,6 +68,8 @@ def mktrace(spec: Tuple[str, str, str]):
     m, q, v = spec
     if v == "bad":
         return CallTrace(mkfunc(m, q), {"x": Unserialisable()}, int)  # type: ignore[dict-item]
+    if v in ("yint", "ystr"):
+        return CallTrace(mkfunc(m, q), {"x": int}, None, int if v == "yint" else str)
     ret = {"int": int, "none": None, "nonetype": type(None), "str": str}[v]
     return CallTrace(mkfunc(m, q), {"x": int}, ret)
 
@@ -78,6 +80,8 @@ def row_of(spec: Tuple[str, str, str]) -> Optional[Tuple[str, str, str, Optional
     if v == "bad":
         return None
     arg = '{"x": {"module": "builtins", "qualname": "int"}}'
+    if v in ("yint", "ystr"):
+        return (m, q, arg, None, '{"module": "builtins", "qualname": "%s"}' % ("int" if v == "yint" else "str"))
     ret = {"int": '{"module": "builtins", "qualname": "int"}', "str": '{"module": "builtins", "qualname": "str"}', "none": None, "nonetype": '{"module": "builtins", "qualname": "NoneType"}'}[v]
     return (m, q, arg, ret, None)
 
@@ -96,6 +100,7 @@ BATCHES: List[List[Tuple[str, str, str]]] = [
     [],
     [("m", "a*b", "int"), ("m", "a?b", "int"), ("m", "my[_X]func", "int")],
     [("m2", f"big{i:04d}", "int") for i in range(1200)],   # index 12: a batch larger than any plausible chunk size
+    [("m", "gen", "yint"), ("m", "gen", "ystr"), ("m", "gen", "none")],   # index 13: rows that differ only in their yield type
 ]
 BIG = 12
 
@@ -108,11 +113,11 @@ def prefixes() -> List[Optional[str]]:
     return [None] + sorted(ps)
 
 
-def indep_rows(path: str) -> collections.Counter:
+def indep_rows(path: str, table: str = TABLE) -> collections.Counter:
     """Read the table through an independent sqlite3 connection (not the store)."""
     c = sqlite3.connect(path, timeout=5)
     try:
-        rows = c.execute(f"select module, qualname, arg_types, return_type, yield_type from {TABLE}").fetchall()
+        rows = c.execute(f"select module, qualname, arg_types, return_type, yield_type from {table}").fetchall()
         ic = c.execute("PRAGMA integrity_check").fetchall()
     finally:
         c.close()
@@ -322,6 +327,157 @@ def _par(ctx: Ctx, fn, chunks):
     return outs
 
 
+# ------------------------------------------------------------------------------------------ X: tables, days, large batches
+
+X_TABLE = "traces_x"
+X_BATCHES = [0, 2, 5, 13]
+
+
+def x_apply(path: str, hist: Sequence[Tuple], fake) -> Tuple[List[Any], List[collections.Counter]]:
+    """Two stores on ONE file: store 0 on the default table (make_store), store 1 on a custom table (the public
+    SQLiteStore(conn, table) constructor). Events: ('add', store, batch) | ('tick',) next calendar day | ('reopen', store)."""
+    from monkeytype.db.sqlite import SQLiteStore, create_call_trace_table
+
+    for ext in ("", "-journal", "-wal", "-shm"):
+        if os.path.exists(path + ext):
+            os.unlink(path + ext)
+
+    def open_store(i: int):
+        if i == 0:
+            return SQLiteStore.make_store(path)
+        conn = sqlite3.connect(path)
+        create_call_trace_table(conn, X_TABLE)
+        return SQLiteStore(conn, X_TABLE)
+
+    fake.day = 0
+    stores = [open_store(0), open_store(1)]
+    models = [collections.Counter(), collections.Counter()]
+    for ev in hist:
+        if ev[0] == "add":
+            stores[ev[1]].add([mktrace(s_) for s_ in BATCHES[ev[2]]])
+            for s_ in BATCHES[ev[2]]:
+                r = row_of(s_)
+                if r is not None:
+                    models[ev[1]][r] += 1
+        elif ev[0] == "tick":
+            fake.day += 1
+        elif ev[0] == "reopen":
+            stores[ev[1]].conn.close()
+            stores[ev[1]] = open_store(ev[1])
+    return stores, models
+
+
+def explore_extras(ctx: Ctx) -> Result:
+    """X1: BFS over add / next-day / reopen on two stores that share a file but not a table: each store answers every
+    query from ITS table only, and de-duplication does not depend on the day a row was committed.
+    X2: the 1200-row batch added whole (alone, after other batches, twice): every one of its rows is there."""
+    import monkeytype.db.sqlite as sq
+    from mcheck.props.c14 import FakeDatetimeModule
+
+    depth = 3 if ctx.quick else 4
+    evs = [("add", st, b) for st in (0, 1) for b in X_BATCHES] + [("tick",), ("reopen", 0), ("reopen", 1)]
+
+    def key_of(hist) -> Tuple:
+        ms = [collections.Counter(), collections.Counter()]
+        day = 0
+        days: List[set] = [set(), set()]
+        for ev in hist:
+            if ev[0] == "add":
+                for s_ in BATCHES[ev[2]]:
+                    r = row_of(s_)
+                    if r is not None:
+                        ms[ev[1]][(r, day)] += 1
+            elif ev[0] == "tick":
+                day += 1
+        return (tuple(tuple(sorted(((r, min(c, 2)) for r, c in m.items()), key=repr)) for m in ms), day)
+
+    seen = {key_of([])}
+    frontier: List[List[Tuple]] = [[]]
+    hists: List[List[Tuple]] = [[]]
+    for _ in range(depth):
+        nxt = []
+        for h in frontier:
+            for ev in evs:
+                h2 = h + [ev]
+                k = key_of(h2)
+                if k not in seen:
+                    seen.add(k)
+                    nxt.append(h2)
+        hists += nxt
+        frontier = nxt
+
+    def work(ctx: Ctx, chunk) -> Result:
+        res = Result()
+        fake = FakeDatetimeModule()
+        old = sq.datetime
+        sq.datetime = fake  # type: ignore[assignment]
+        path = str(ctx.tmp / f"x_{os.getpid()}.sqlite3")
+        try:
+            for hist in chunk:
+                case = {"part": "X", "history": [list(e) for e in hist]}
+                res.states += 1
+                res.evaluations += 1
+                try:
+                    stores, models = x_apply(path, hist, fake)
+                except Exception as e:  # noqa: BLE001
+                    res.violate(Violation(ID, "exception", "history", case, f"two-table history {hist} raised {e!r}"))
+                    continue
+                res.validated += 1
+                for i, (st, model) in enumerate(zip(stores, models)):
+                    raw = indep_rows(path, TABLE if i == 0 else X_TABLE)
+                    if raw != model:
+                        res.violate(Violation(ID, "content", "table-differs-from-model", dict(case, conn=i), f"table of store {i}: {sorted(raw.items(), key=repr)[:4]} != model {sorted(model.items(), key=repr)[:4]}"))
+                    check_queries(st, model, res, dict(case, conn=i), f"two-table history {hist} store {i} ({'default' if i == 0 else 'custom'} table)")
+                if any(e[0] == "tick" for e in hist) and any(c > 1 for m in models for c in m.values()):
+                    res.oblige("X:same-row-committed-on-different-days", True)
+                if models[0] and models[1] and {r[0] for r in models[0]} != {r[0] for r in models[1]}:
+                    res.oblige("X:tables-with-different-modules", True)
+                for st in stores:
+                    st.conn.close()
+            if any(e[0] == "add" for h in chunk for e in h) and fake.calls == 0:
+                raise HarnessError("clock seam not consulted by SQLiteStore.add (seam lost)")
+        finally:
+            sq.datetime = old  # type: ignore[assignment]
+        return res
+
+    chunks = [hists[i:: ctx.workers * 2] for i in range(ctx.workers * 2)]
+    total = Result()
+    for r in (_par(ctx, work, [c for c in chunks if c]) if ctx.workers > 1 else [work(ctx, c) for c in chunks if c]):
+        total.merge(r)
+    total.bounds["X_depth"] = depth
+    total.bounds["X_states"] = len(hists)
+    # X2: large batch, whole
+    from monkeytype.db.sqlite import SQLiteStore
+
+    path = str(ctx.tmp / "x_big.sqlite3")
+    want = {row_of(s_) for s_ in BATCHES[BIG]}
+    for pre in ([], [0], [5, 13], [BIG]):
+        for ext in ("", "-journal"):
+            if os.path.exists(path + ext):
+                os.unlink(path + ext)
+        st = SQLiteStore.make_store(path)
+        for b in pre:
+            st.add([mktrace(s_) for s_ in BATCHES[b]])
+        st.add([mktrace(s_) for s_ in BATCHES[BIG]])
+        total.states += 1
+        total.evaluations += 1
+        total.validated += 1
+        total.transitions += 3
+        case = {"part": "X", "history": [["add", 0, b] for b in pre + [BIG]], "big": True}
+        got = {(t.module, t.qualname, t.arg_types, t.return_type, t.yield_type) for t in st.filter("m2", "big", 5000)}
+        raw = indep_rows(path)
+        n_raw = sum(c for r, c in raw.items() if r[1].startswith("big"))
+        n_exp = len(BATCHES[BIG]) * (2 if BIG in pre else 1)
+        if got != want or n_raw != n_exp:
+            missing = sorted(r[1] for r in want - got)
+            total.violate(Violation(ID, "content", "large-batch-incomplete", case, f"1200-row batch after {pre}: filter returns {len(got)} of 1200 distinct rows (missing {missing[:5]}), table holds {n_raw} of {n_exp} rows"))
+        if len(st.filter("m2", "big", 700)) != 700:
+            total.violate(Violation(ID, "count", "wrong-count", case, "filter('m2','big',700) on 1200 distinct rows did not return 700"))
+        st.conn.close()
+    total.oblige("X:large-batch-whole", True)
+    return total
+
+
 # ------------------------------------------------------------------------------------------ S: schedules
 
 
@@ -440,7 +596,7 @@ def explore_schedules(ctx: Ctx, pairs: bool) -> Result:
 def crash_child(path: str, batch: int, kill_at: int) -> None:
     from monkeytype.db.sqlite import SQLiteStore
 
-    st = SQLiteStore(sqlite3.connect(path))
+    st = SQLiteStore.make_store(path)   # the way every Config opens its store (whatever make_store sets up is in force)
     n = [0]
 
     def h() -> int:
@@ -537,7 +693,8 @@ def explore_crashes(ctx: Ctx, syscalls: bool) -> Result:
             res.oblige("K:crash-after-commit", True)
         res.outcomes.add(("K", b, tuple(sorted(outcomes.items(), key=repr))))
         res.sample({"part": "K", "pre_batches": pre, "batch": b, "vm_steps": nsteps, "outcomes": dict(outcomes)})
-        if syscalls:
+        if syscalls or (pre, b) == ([0, 5], 1):
+            # quick tier: one batch (two rows of a module that already has rows: a table page and an index page change)
             syscall_crashes(ctx, res, path, pre, b, batch_rows)
         return res
 
@@ -665,11 +822,13 @@ def explore_faults(ctx: Ctx) -> Result:
 def run(ctx: Ctx) -> Result:
     res = Result()
     res.merge(explore_histories(ctx, 3 if ctx.quick else 4))
+    res.merge(explore_extras(ctx))
     res.merge(explore_schedules(ctx, pairs=not ctx.quick))
     res.merge(explore_crashes(ctx, syscalls=not ctx.quick))
     res.merge(explore_faults(ctx))
     for o in (
         "H:query-distinguishing-LIKE-from-prefix", "H:state-with-duplicates", "H:multi-connection-state",
+        "X:same-row-committed-on-different-days", "X:tables-with-different-modules", "X:large-batch-whole",
         "S:second-writer-committed-inside", "K:crash-before-commit", "K:crash-after-commit", "F:abort-rolled-back",
     ):
         res.obligations.setdefault(o, False)
@@ -689,6 +848,24 @@ def replay(case: Dict[str, Any], ctx: Ctx) -> List[Violation]:
             res.violate(Violation(ID, "content", "table-differs-from-model", case, "table differs"))
         for ci, st in enumerate(stores):
             check_queries(st, model, res, dict(case, conn=ci), f"history {hist} conn {ci}")
+    elif part == "X":
+        if case.get("big"):
+            return [v for v in explore_extras(ctx).violations if v.case.get("big")]
+        import monkeytype.db.sqlite as sq
+        from mcheck.props.c14 import FakeDatetimeModule
+
+        fake = FakeDatetimeModule()
+        old = sq.datetime
+        sq.datetime = fake  # type: ignore[assignment]
+        try:
+            hist = [tuple(e) for e in case["history"]]
+            stores, models = x_apply(path, hist, fake)
+            for i, (st, model) in enumerate(zip(stores, models)):
+                if indep_rows(path, TABLE if i == 0 else X_TABLE) != model:
+                    res.violate(Violation(ID, "content", "table-differs-from-model", dict(case, conn=i), "table differs"))
+                check_queries(st, model, res, dict(case, conn=i), f"two-table history {hist} store {i}")
+        finally:
+            sq.datetime = old  # type: ignore[assignment]
     elif part == "S":
         run_schedule(path, case["pre"], case["a"], [tuple(e) for e in case["events"]], case["b"], res, case)
     elif part == "K":
